@@ -40,6 +40,10 @@ theorem pratt_parses_tree (t : PTree) :
     parseToks ((PrecU.pr docNp t).map ofPTok) = some (toSExpr t) := by
   simp [parseToks, classify_pr, adjacent_pr, PrecU.roundtrip_all doc_compat t]
 
+/-- T2 in terms of the source printer of the correspondence: what `srcToks` prints for an operator tree parses back to it -/
+theorem pratt_parses_printed_source (t : PTree) (h : noStar t = true) : parseToks (srcToks (toSExpr t)) = some (toSExpr t) := by
+  rw [srcToks_eq t h]; exact pratt_parses_tree t
+
 -- non-vacuity: `a - (b - c) ** -d` (right operand of `-` needs parentheses, `**` binds tighter, unary tightest)
 example : parseToks [.atom (.col 0), .sym (.ctrl '-'), .lp, .atom (.col 1), .sym (.ctrl '-'), .atom (.col 2), .rp,
     .sym (.kind .Pow), .sym (.ctrl '-'), .atom (.col 3)]
@@ -127,6 +131,44 @@ theorem sql_print_parse_partial (t : ETree) (h : agree npEmit npFix t) :
 example : agree npEmit npFix
     (.bin (.bin .And) (.bin (.bin .Lt) (.bin (.bin .Plus) (.leaf (.col 0)) (.bin (.bin .Multiply) (.leaf (.col 1)) (.leaf (.col 2))))
       (.un .neg (.leaf (.col 3)))) (.un .not (.leaf (.col 4))) : ETree) := agree_of_agreeB _ (by decide)
+
+/-- the excluded triples that merely re-associate an associative operation (`a + (b + c)` printed `a + b + c`) -/
+def harmlessList : List (ENode × Bool × ENode) := [
+  (.b (.bin .Multiply), false, .b (.bin .Multiply)), (.b (.bin .Multiply), false, .b .divF),
+  (.b (.bin .Plus), false, .b (.bin .Plus)), (.b (.bin .Plus), false, .b (.bin .Minus)),
+  (.b (.bin .And), false, .b (.bin .And)), (.b (.bin .Or), false, .b (.bin .Or)),
+  (.b (.bin .StringConcat), false, .b (.bin .StringConcat))]
+
+def isCmpLike : ENode → Bool
+  | .b (.bin .Eq) | .b (.bin .NotEq) | .b (.bin .Gt) | .b (.bin .Lt) | .b (.bin .GtEq) | .b (.bin .LtEq) | .b .regexp => true
+  | _ => false
+
+/-- every excluded triple is a harmless re-association, a comparison (or REGEXP) under a comparison, an operand of `||`,
+or `%` as the right operand of `*` -/
+theorem excluded_classification :
+    excludedList.all (fun x =>
+      harmlessList.contains x || (isCmpLike x.1 && isCmpLike x.2.2) || x.1 == .b (.bin .StringConcat)
+        || x == (.b (.bin .Multiply), false, .b .mod)) = true := by decide
+
+/-- the harmless ones at the level of values (exact arithmetic, three-valued logic): re-association does not change the value -/
+theorem reassoc_add (a b c : Value) : (vAdd b c).bind (vAdd a) = (vAdd a b).bind (fun x => vAdd x c) := by
+  cases a <;> cases b <;> cases c <;> simp [vAdd, lift2] <;> grind
+theorem reassoc_add_sub (a b c : Value) : (vSub b c).bind (vAdd a) = (vAdd a b).bind (fun x => vSub x c) := by
+  cases a <;> cases b <;> cases c <;> simp [vAdd, vSub, lift2] <;> grind
+theorem reassoc_mul (a b c : Value) : (vMul b c).bind (vMul a) = (vMul a b).bind (fun x => vMul x c) := by
+  cases a <;> cases b <;> cases c <;> simp [vMul, lift2] <;> grind
+theorem truth_ofBool3 (x : Option Bool) : (ofBool3 x).truth = x := by
+  cases x with
+  | none => rfl
+  | some b => simp [ofBool3, truth_ofBool]
+theorem and3_assoc (x y z : Option Bool) : and3 x (and3 y z) = and3 (and3 x y) z := by
+  rcases x with _ | (_ | _) <;> rcases y with _ | (_ | _) <;> rcases z with _ | (_ | _) <;> rfl
+theorem or3_assoc (x y z : Option Bool) : or3 x (or3 y z) = or3 (or3 x y) z := by
+  rcases x with _ | (_ | _) <;> rcases y with _ | (_ | _) <;> rcases z with _ | (_ | _) <;> rfl
+theorem reassoc_and (a b c : Value) : vAnd a (vAnd b c) = vAnd (vAnd a b) c := by
+  simp only [vAnd, truth_ofBool3, and3_assoc]
+theorem reassoc_or (a b c : Value) : vOr a (vOr b c) = vOr (vOr a b) c := by
+  simp only [vOr, truth_ofBool3, or3_assoc]
 
 /-- counterexample 1: `(a = b) < c` and `a = (b < c)` are printed as the same tokens `a = b < c` -/
 theorem sql_print_parse_counterexample_comparison :
